@@ -202,3 +202,29 @@ Proof.
   - change (32 / 16) with 2. lia.
   - change (32 / 32) with 1. lia.
 Qed.
+
+(* Fidelity of modelling np.bitwise_or of the shifted lanes by a sum: the lanes
+   are disjoint, so OR-ing a digit below 2^b with the remaining digits shifted
+   left by b bits is the same number as adding them. *)
+Lemma lor_shift_add b v F : v < 2 ^ b -> N.lor v (N.shiftl F b) = v + 2 ^ b * F.
+Proof.
+  intros Hv. rewrite N.shiftl_mul_pow2.
+  assert (Hland : N.land v (F * 2 ^ b) = 0).
+  { apply N.bits_inj. intros i. rewrite N.land_spec, N.bits_0.
+    destruct (N.lt_ge_cases i b) as [Hlt|Hge].
+    - rewrite N.mul_pow2_bits_low by exact Hlt. apply andb_false_r.
+    - rewrite <- (N.mod_small v (2 ^ b)) by exact Hv.
+      rewrite N.mod_pow2_bits_high by exact Hge. reflexivity. }
+  rewrite <- N.lxor_lor by exact Hland.
+  rewrite <- N.add_nocarry_lxor by exact Hland. lia.
+Qed.
+
+Fixpoint from_digits_or (bits : N) (vs : list N) : N :=
+  match vs with [] => 0 | v :: r => N.lor v (N.shiftl (from_digits_or bits r) bits) end.
+
+Lemma from_digits_lor b vs :
+  Forall (fun v => v < 2 ^ b) vs -> from_digits_or b vs = from_digits b vs.
+Proof.
+  induction 1 as [|v r Hv Hr IH]; [reflexivity|].
+  cbn [from_digits_or from_digits]. rewrite IH. now apply lor_shift_add.
+Qed.
